@@ -13,6 +13,8 @@ EXTENDS SystemLife, Json, IOUtils
 
 NoResets(i) == {}
 NoNeeds(i) == {}
+TwoVersions(i) == {1, 2}
+NoWarnings(c) == {}
 Log == ndJsonDeserialize(IOEnv.TRACE_FILE)
 VARIABLE l
 Clause(name, c) == c \/ (PrintT(<<"REJECT", ToJson([l |-> l, clause |-> name, seq |-> Log[l].seq])>>) /\ FALSE)
